@@ -190,6 +190,9 @@ def make_cert(common_names=('alice',), eku='client'):
     return der
 
 
+RECV_HOOK = None
+
+
 class FakeConnection(object):
     """What a KmipSession needs from an ssl socket, fed from a byte buffer."""
 
@@ -223,6 +226,8 @@ class FakeConnection(object):
         self.calls.append('close')
 
     def recv(self, n):
+        if RECV_HOOK is not None:
+            RECV_HOOK(self)         # an I/O point the schedule explorer can own
         self.recv_calls += 1
         if not self.inbuf:
             return b''
